@@ -142,9 +142,9 @@ struct Ctx {
         if (!mine) return false;
         prog->cur = idx;
         executed++; phase_exec++;
-        if ((executed & 255) == 0 && only < 0) {
+        if ((executed & 15) == 0 && only < 0) {
             struct timeval tv; gettimeofday(&tv, nullptr); double now = tv.tv_sec + tv.tv_usec * 1e-6;
-            if (now - last_ckpt > 1.0) { last_ckpt = now; write_stat(false); }
+            if (now - last_ckpt > 0.1) { last_ckpt = now; write_stat(false); }
         }
         alarm(case_limit_s);
         return true;
